@@ -297,7 +297,7 @@ pub fn run(a: &Args, rep: &mut Report) {
             let len = if rng.chance(1, 3) { total - off } else { rng.below((total - off) as u64 + 1) as usize };
             cases.push(MCase { kind: 0, a: rng.bytes(total), b: Vec::new(), end_aligned: rng.chance(1, 2), null: 0, off, len });
         } else {
-            let la = if k % 64 == 3 { *rng.pick(&[65_534usize, 65_535, 65_536, 65_537, 70_000, 200_000]) } else { *rng.pick(&[0usize, 1, 2, 5, 16, 100, 1000]) };
+            let la = if k % 64 == 3 { *rng.pick(&[65_534usize, 65_535, 65_536, 65_537, 70_000, 200_000, (1 << 20) - 1, 1 << 20, (1 << 20) + 1, 3_000_000]) } else { *rng.pick(&[0usize, 1, 2, 5, 16, 100, 1000]) };
             let mut sa: Vec<u8> = (0..la).map(|_| 1 + rng.below(255) as u8).collect();
             let mut sb = sa.clone();
             match if la > 60_000 { *rng.pick(&[0u64, 3, 4, 4, 2]) } else { rng.below(6) } {
